@@ -327,6 +327,43 @@ def run_parse_errors(ctx, spec):
             ctx.violate("silenced-out-of-scope:with-parse-phase-error/" + where, "unsuppressed %s has level %s" % (tpl["lint"], level), replay)
 
 
+def run_unfinished(ctx, spec):
+    """A lint recorded for a member whose container is never completed (a syntax error follows inside the same definition). The
+    member never enters the AST, and suppressions are found by looking the lint's scoped name up in the AST at the end."""
+    witnesses = [
+        ("not-silenced:member-of-unfinished-container", "allowed",
+         ["module M\n[allow(MalformedDocComment)] struct T {\n[allow(MalformedDocComment)]\n/// {@link\na: int32\nb: }\n"]),
+        ("not-silenced:member-of-unfinished-container", "allowed",
+         ["module M\n[allow(All)] interface I {\n/// {@link\n[allow(MalformedDocComment)] op()\nop2( }\n"]),
+        ("silenced-out-of-scope:same-name-elsewhere-after-syntax-error", "warning",
+         ["module M\nstruct S {\n/// {@link\nf: int32\ng: }\n", "module M\nstruct S { [allow(MalformedDocComment)] f: int32 }\n"]),
+        # controls: the same suppressions with the syntax error in a *later* definition, and no suppression at all
+        ("control", "allowed",
+         ["module M\n[allow(MalformedDocComment)] struct T {\n/// {@link\na: int32 }\nstruct U { b: }\n"]),
+        ("control", "warning", ["module M\nstruct T {\n/// {@link\na: int32\nb: }\n"]),
+    ]
+    resps = ctx.worker.batch([{"op": "compile", "files": w[2], "want": ["diags"]} for w in witnesses])
+    for (sig, want, texts), r in zip(witnesses, resps):
+        ctx.note_case(("unfinished", tuple(texts)))
+        ctx.stats["unfinished_container_cases"] += 1
+        replay = {"kind": "library", "call": "compile_from_strings + into_diagnostics", "files": texts, "expected_level": want}
+        if "died" in r or r.get("panic"):
+            p = r.get("panic") or {"message": "worker " + r["died"], "location": "?"}
+            ctx.violate(core.panic_signature(p), "crashed: %s" % p, replay)
+            continue
+        lints = [d for d in r["diags"] if d["code"] == "MalformedDocComment"]
+        errs = [d for d in r["diags"] if d["level"] == "error"]
+        replay["observed"] = [(d["code"], d["level"]) for d in r["diags"]]
+        if len(lints) != 1 or not errs:
+            ctx.violate("harness:unfinished-container-witness", "witness does not produce one lint and an error: %r" % replay["observed"], replay)
+            continue
+        if lints[0]["level"] != want:
+            what = ("a suppression on the member / its enclosing definition is ignored" if want == "allowed"
+                    else "an allow attribute on a different element of the same scoped name, in another file, silences it")
+            ctx.violate(sig if sig != "control" else "unfinished-container-control", "MalformedDocComment about a member of a definition that a syntax "
+                        "error leaves unfinished has level %s, expected %s: %s" % (lints[0]["level"], want, what), replay)
+
+
 def fill_raw(template, raw):
     """Like fill(), but each slot holds the given raw text."""
     values = {s: "" for s in ["file", "other", "elem", "encl", "encl2", "sib", "sib2", "depdef"]}
@@ -701,13 +738,13 @@ def judge_random(ctx, prog, lints, cmdline, texts, r):
 
 
 def run_shard(ctx, spec):
-    {"templates": run_templates, "random": run_random, "errors-at-element": run_errors_at_element, "parse-errors": run_parse_errors, "errors": run_errors, "request": run_request, "dupfile": run_dupfile}[spec[0]](ctx, spec)
+    {"templates": run_templates, "random": run_random, "errors-at-element": run_errors_at_element, "parse-errors": run_parse_errors, "unfinished": run_unfinished, "errors": run_errors, "request": run_request, "dupfile": run_dupfile}[spec[0]](ctx, spec)
 
 
 def plan(tier, seed):
     n = 3000 if tier == "quick" else 60000
     return ([("templates", i, 8) for i in range(8)] + [("errors", i, 8) for i in range(8)] + [("request", i, 8) for i in range(8)] + [("dupfile",)]
-            + [("random", n // 16, i) for i in range(16)] + [("errors-at-element", i, 8) for i in range(8)] + [("parse-errors", i, 8) for i in range(8)])
+            + [("random", n // 16, i) for i in range(16)] + [("errors-at-element", i, 8) for i in range(8)] + [("parse-errors", i, 8) for i in range(8)] + [("unfinished",)])
 
 
 def main(tier, seed):
